@@ -345,7 +345,8 @@ impl<'k> Renderer<'k> {
         self.counter += 1;
         let name = format!("b{}", self.counter);
         let lt = self.out.text.len();
-        let tag = format!("<block name={quote}{name}{quote}{}>", self.extra_attrs);
+        // Extra attributes are written with the quote character of the comment form.
+        let tag = format!("<block name={quote}{name}{quote}{}>", self.extra_attrs.replace('"', &quote.to_string()));
         self.out.text.push_str(&tag);
         (name, lt, lt + tag.len() - 1)
     }
